@@ -18,9 +18,10 @@ TRUSTED = [
 ASSUMPTIONS = [
     "wf_colors / wf_adj hypotheses of the theorems are checked as booleans on the implementation's own arrays in every "
     "correspondence case (the colour-partition fact itself is C16's theorem)",
-    "the hypersingular and Maxwell regular/singular assemblers share the loop/skip/scatter structure of the model "
-    "(Lreg, Lsing are arbitrary) but only the default scalar assemblers are run against the second-level model; the others "
-    "are exercised by the API-level search",
+    "the hypersingular and Maxwell regular/singular assemblers are tied at the first level (their own matrix on the full "
+    "element-wise spaces supplies the local values Lreg, Lsing; the model must reproduce their matrix on restricted spaces with "
+    "non-prefix supports and non-unit multipliers); only the default scalar assemblers are also tied at the second level "
+    "(quadrature sums with a surrogate kernel)",
     "P' A_fine P = A_coarse up to quadrature error for nested grids is analytic and only exercised by the search",
 ]
 
